@@ -58,6 +58,8 @@ struct Violation {
 struct Observed {
     violations: Vec<Violation>,
     out: Option<String>,
+    /// the second pass, when it differs from the first
+    again: Option<String>,
 }
 
 fn first_line_diff(a: &str, b: &str) -> String {
@@ -91,11 +93,11 @@ fn observe_inner(src: &str, src_fp: &str, width: usize) -> Observed {
     let out = match format(src, width) {
         Err(p) => {
             v.push(Violation { kind: "panic", err_line: None, panic_sig: Some(p.signature()), msg: format!("the formatter panicked: {}", p.describe()) });
-            return Observed { violations: v, out: None };
+            return Observed { violations: v, out: None, again: None };
         }
         Ok(Err(n)) => {
             v.push(Violation { kind: "format-error", err_line: None, panic_sig: None, msg: format!("pretty_print_cst returned Err ({n} diagnostics) on a text that parses without errors") });
-            return Observed { violations: v, out: None };
+            return Observed { violations: v, out: None, again: None };
         }
         Ok(Ok(s)) => s,
     };
@@ -136,6 +138,7 @@ fn observe_inner(src: &str, src_fp: &str, width: usize) -> Observed {
         v.push(Violation { kind, err_line: None, panic_sig: None, msg: format!("{what}: input has {} comments, output {}; first difference at comment #{first}: input {:?} / output {:?}", cs.len(), co.len(), show(&cs), show(&co)) });
     }
     // fixed point
+    let mut second = None;
     if out_parses {
         match format(&out, width) {
             Err(p) => v.push(Violation { kind: "panic", err_line: None, panic_sig: Some(p.signature()), msg: format!("the formatter panicked on its own output: {}", p.describe()) }),
@@ -143,11 +146,12 @@ fn observe_inner(src: &str, src_fp: &str, width: usize) -> Observed {
             Ok(Ok(again)) => {
                 if again != out {
                     v.push(Violation { kind: "not-idempotent", err_line: None, panic_sig: None, msg: format!("formatting the output again changes it; {}", first_line_diff(&out, &again)) });
+                    second = Some(again);
                 }
             }
         }
     }
-    Observed { violations: v, out: Some(out) }
+    Observed { violations: v, out: Some(out), again: second }
 }
 
 // ---------------------------------------------------------------------------------------------
@@ -156,10 +160,12 @@ fn observe_inner(src: &str, src_fp: &str, width: usize) -> Observed {
 // Structural defects (the output does not parse / parses to another tree) are attributed by a
 // token-level REPAIR: the non-trivia tokens of the output are aligned with those of the input;
 // exactly the differences the triaged defects produce are undone (a comma inserted in front of
-// `:` / `=` inside a list item, `| |` fused to `||`, tokens glued together without a space in
-// `if cond`, type declarations and match expressions).  Only if the repaired output then parses
-// to the input's tree is the violation attributed to those findings, so any further defect in
-// the same text is still reported.
+// `:` / `=` inside a list item, `| |` fused to `||`, tokens glued together without a space after
+// `if` / `macro`, in type declarations, match expressions, module bodies and behind a lambda's
+// union return type, missing separators between match arms / module statements, `- -x` fused,
+// the dropped comma of `(x,)`, `{` printed as `(`).  Only if the repaired output then parses to
+// the input's tree is the violation attributed to those findings, so any further defect in the
+// same text is still reported.
 // Comment defects are attributed by predicting the output's comment sequence from the input.
 // ---------------------------------------------------------------------------------------------
 
@@ -167,6 +173,8 @@ struct CaseView<'a> {
     src: &'a str,
     src_fp: &'a str,
     out: Option<&'a str>,
+    /// second pass, when it differs from the first
+    again: Option<&'a str>,
     feats: &'a Features,
 }
 
@@ -180,9 +188,37 @@ pub const KF_BLOCK_END_COMMENT: (&str, &str) = ("C14-comment-after-block-end-los
 pub const KF_COMMA_COMMENT: (&str, &str) = ("C14-comment-after-comma-lost", "after-comma");
 pub const KF_USE_BRACES_COMMENT: (&str, &str) = ("C14-comment-in-use-braces-lost", "in-use-braces");
 pub const KF_SINGLE_TUPLE: (&str, &str) = ("C14-single-element-tuple-comma-dropped", "single-element-tuple-comma-dropped");
+pub const KF_MACRO_DECL: (&str, &str) = ("C14-macro-keyword-glued", "macro-keyword-glued");
+pub const KF_NESTED_UNARY: (&str, &str) = ("C14-nested-unary-operators-fused", "nested-unary-operators-fused");
+pub const KF_LAMBDA_UNION: (&str, &str) = ("C14-lambda-union-return-type-glued", "lambda-union-return-type-glued");
+pub const KF_TYPE_PAREN_COMMENT: (&str, &str) = ("C14-comment-at-unprinted-type-paren-lost", "at-unprinted-type-paren");
+pub const KF_RECORD_TYPE_DELIM: (&str, &str) = ("C14-record-type-paren-element-wrong-delimiter", "record-type-paren-element-wrong-delimiter");
+pub const KF_MODULE_BODY: (&str, &str) = ("C14-module-body-statements-unseparated", "module-body-statements-unseparated");
+pub const KF_PAREN_RECORD_LOOKAHEAD: (&str, &str) = ("C14-paren-expr-reads-as-tuple-within-lookahead", "paren-expr-reads-as-tuple-within-lookahead");
 pub const KF_HEADER_DUP: (&str, &str) = ("C14-first-token-leading-comment-duplicated", "first-token-leading-duplicated");
 
 type Finding = (&'static str, &'static str);
+
+/// the qualifier of a signature is the first finding in this order (most specific first)
+const STRUCTURAL_ORDER: &[Finding] = &[
+    KF_RECORD_TYPE_DELIM,
+    KF_LAMBDA_UNION,
+    KF_NESTED_UNARY,
+    KF_SINGLE_TUPLE,
+    KF_MACRO_DECL,
+    KF_MODULE_BODY,
+    KF_IF_BARE,
+    KF_EMPTY_LAMBDA,
+    KF_MATCH,
+    KF_TYPE_DECL,
+    KF_LIST_SPLIT,
+    KF_PAREN_RECORD_LOOKAHEAD,
+];
+
+fn by_specificity(mut v: Vec<Finding>) -> Vec<Finding> {
+    v.sort_by_key(|f| STRUCTURAL_ORDER.iter().position(|x| x == f).unwrap_or(usize::MAX));
+    v
+}
 
 fn push_unique(v: &mut Vec<Finding>, f: Finding) {
     if !v.contains(&f) {
@@ -203,16 +239,56 @@ fn repair(c: &CaseView) -> Result<(String, Vec<Finding>), String> {
     let mut found: Vec<Finding> = vec![];
     // (byte range in out, replacement)
     let mut edits: Vec<(usize, usize, String)> = vec![];
+    // line breaks put between module-body statements: they alone are not evidence of a defect
+    // (`}pub fn` parses), they only matter when the repaired text is what makes the tree equal
+    let mut module_seps = 0usize;
     let (mut i, mut j) = (0usize, 0usize);
     while i < st.len() && j < ot.len() {
         let (s, o) = (stext(i), otext(j));
         // parentheses around an element type of a tuple type are never printed (the parser keeps
         // no node for them: the tree is the same)
-        if c.feats.unprinted_type_parens.contains(&st[i]) {
+        if c.feats.align_skip.contains(&st[i]) {
             i += 1;
             continue;
         }
+        // `{a: (T)}`: the record type's `{` is printed as the element's `(`
+        if let Some((_, want)) = c.feats.align_replace.iter().find(|(t, _)| *t == st[i]) {
+            if o == *want && s != o {
+                let t = &ot_all[ot[j]];
+                edits.push((t.start, t.end(), s.to_string()));
+                push_unique(&mut found, KF_RECORD_TYPE_DELIM);
+                i += 1;
+                j += 1;
+                continue;
+            }
+        }
         if s == o {
+            // a unary operator printed directly behind another one (`- -x` -> `--x`): the parser
+            // refuses consecutive operators without whitespace
+            if matches!(s, "-" | "+") && i > 0 && j > 0 && matches!(stext(i - 1), "-" | "+") && c.feats.lca_after.get(st[i - 1]).copied().flatten() == Some(SyntaxKind::UnaryExpr) {
+                let (po, to) = (&ot_all[ot[j - 1]], &ot_all[ot[j]]);
+                let (ps, ts) = (&st_all[st[i - 1]], &st_all[st[i]]);
+                if po.end() == to.start && ps.end() != ts.start {
+                    edits.push((to.start, to.start, " ".into()));
+                    push_unique(&mut found, KF_NESTED_UNARY);
+                }
+            }
+            // two match arms printed on one line without a separator
+            if c.feats.lca_after.get(st[i]).copied().flatten() == Some(SyntaxKind::MatchArmList) && j + 1 < ot.len() && i + 1 < st.len() && stext(i + 1) != "," {
+                let (a, b) = (ot_all[ot[j]].end(), ot_all[ot[j + 1]].start);
+                if !out[a..b].contains('\n') {
+                    edits.push((a, a, "\n".into()));
+                    push_unique(&mut found, KF_MATCH);
+                }
+            }
+            // two statements of a module body printed on one line without a separator
+            if c.feats.lca_after.get(st[i]).copied().flatten() == Some(SyntaxKind::ModuleDecl) && j + 1 < ot.len() && i + 1 < st.len() && !matches!(s, "mod" | "{") && stext(i + 1) != "}" && stext(i + 1) != "{" {
+                let (a, b) = (ot_all[ot[j]].end(), ot_all[ot[j + 1]].start);
+                if !out[a..b].contains('\n') {
+                    edits.push((a, a, "\n".into()));
+                    module_seps += 1;
+                }
+            }
             i += 1;
             j += 1;
             continue;
@@ -252,42 +328,81 @@ fn repair(c: &CaseView) -> Result<(String, Vec<Finding>), String> {
             i += 1;
             continue;
         }
-        // several input tokens printed without anything between them
-        if o.len() > s.len() && o.starts_with(s) {
-            let mut k = i;
-            let mut acc = String::new();
-            while k < st.len() && acc.len() < o.len() {
-                acc.push_str(stext(k));
-                k += 1;
+        // several input tokens printed without anything between them (the glued text may
+        // tokenise differently: `a` `0.0` -> `a0` `.0`)
+        {
+            let (mut k, mut l) = (i, j);
+            let (mut acc_s, mut acc_o) = (String::new(), String::new());
+            let mut ok = true;
+            loop {
+                if acc_s.len() <= acc_o.len() {
+                    if k >= st.len() || k - i > 64 {
+                        ok = false;
+                        break;
+                    }
+                    acc_s.push_str(stext(k));
+                    k += 1;
+                } else {
+                    if l >= ot.len() || (l > j && ot_all[ot[l]].start != ot_all[ot[l - 1]].end()) {
+                        ok = false;
+                        break;
+                    }
+                    acc_o.push_str(otext(l));
+                    l += 1;
+                }
+                let n = acc_s.len().min(acc_o.len());
+                if acc_s.as_bytes()[..n] != acc_o.as_bytes()[..n] {
+                    ok = false;
+                    break;
+                }
+                if acc_s.len() == acc_o.len() && l > j {
+                    // one input token that the output splits (`0.0` -> `0` `.` `0` in front of a
+                    // glued `0.0`): the glued run goes on
+                    let run_goes_on = l < ot.len() && ot_all[ot[l]].start == ot_all[ot[l - 1]].end();
+                    if k - i >= 2 || !run_goes_on {
+                        break;
+                    }
+                }
             }
-            if acc != o {
-                return Err(format!(" [output token {o:?} is not made of the input tokens that follow {s:?}]"));
+            if ok && k - i >= 2 {
+                // the node that joins each pair of glued tokens tells which printer rule is missing
+                for x in i..k - 1 {
+                    let f = match c.feats.lca_after.get(st[x]).copied().flatten() {
+                        Some(SyntaxKind::TypeDecl | SyntaxKind::VariantDef) => KF_TYPE_DECL,
+                        Some(SyntaxKind::MatchExpr | SyntaxKind::MatchArm | SyntaxKind::MatchArmList | SyntaxKind::MatchPattern | SyntaxKind::ConstructorPattern) => KF_MATCH,
+                        Some(SyntaxKind::IfExpr) if stext(x) == "if" => KF_IF_BARE,
+                        Some(SyntaxKind::FunctionDecl) if stext(x) == "macro" => KF_MACRO_DECL,
+                        Some(SyntaxKind::ModuleDecl) if !matches!(stext(x), "mod" | "{") && stext(x + 1) != "}" => KF_MODULE_BODY,
+                        Some(SyntaxKind::LambdaExpr) if c.feats.lambda_union_ret_last.contains(&st[x]) => KF_LAMBDA_UNION,
+                        // tokens glued in a construct that has not been triaged: not a known finding
+                        k => return Err(format!(" [the output glues the input tokens {:?} and {:?} (joined by a {k:?} node), which no triaged defect explains]", stext(x), stext(x + 1))),
+                    };
+                    push_unique(&mut found, f);
+                }
+                // match arms need a separator of their own (`0 => (a)` `() => 1` would read `(a)()`)
+                let mut joined = String::new();
+                for x in i..k {
+                    joined.push_str(stext(x));
+                    if x + 1 < k {
+                        joined.push(if matches!(c.feats.lca_after.get(st[x]).copied().flatten(), Some(SyntaxKind::MatchArmList | SyntaxKind::ModuleDecl)) { '\n' } else { ' ' });
+                    }
+                }
+                edits.push((ot_all[ot[j]].start, ot_all[ot[l - 1]].end(), joined));
+                i = k;
+                j = l;
+                continue;
             }
-            // the node that joins each pair of glued tokens tells which printer rule is missing
-            for x in i..k - 1 {
-                let f = match c.feats.lca_after.get(st[x]).copied().flatten() {
-                    Some(SyntaxKind::TypeDecl | SyntaxKind::VariantDef) => KF_TYPE_DECL,
-                    Some(SyntaxKind::MatchExpr | SyntaxKind::MatchArm | SyntaxKind::MatchArmList | SyntaxKind::MatchPattern | SyntaxKind::ConstructorPattern) => KF_MATCH,
-                    Some(SyntaxKind::IfExpr) if stext(x) == "if" => KF_IF_BARE,
-                    // tokens glued in a construct that has not been triaged: not a known finding
-                    k => return Err(format!(" [the output glues the input tokens {:?} and {:?} (joined by a {k:?} node), which no triaged defect explains]", stext(x), stext(x + 1))),
-                };
-                push_unique(&mut found, f);
-            }
-            let t = &ot_all[ot[j]];
-            let parts: Vec<&str> = (i..k).map(stext).collect();
-            edits.push((t.start, t.end(), parts.join(" ")));
-            i = k;
-            j += 1;
-            continue;
         }
         return Err(format!(" [token streams diverge: input {s:?} / output {o:?}]"));
     }
-    while i < st.len() && (stext(i) == "," || c.feats.unprinted_type_parens.contains(&st[i])) {
+    while i < st.len() && (stext(i) == "," || c.feats.align_skip.contains(&st[i])) {
         i += 1;
     }
     if i != st.len() || j != ot.len() {
         return Err(" [the output has fewer or more tokens than the input]".into());
+    }
+    if found.is_empty() && module_seps > 0 {
+        found.push(KF_MODULE_BODY);
     }
     if found.is_empty() {
         return Err(" [the output has the input's tokens in order, up to list commas: the defect is in the placement of line breaks, commas or comments]".into());
@@ -309,15 +424,45 @@ fn explain_structure(c: &CaseView) -> Result<Vec<Finding>, String> {
     let (fixed, found) = repair(c)?;
     let names: Vec<&str> = found.iter().map(|f| f.0).collect();
     match panics::catch(|| fp::parse_fp(&fixed)) {
-        Ok(Ok(f)) if f == c.src_fp => Ok(found),
+        Ok(Ok(f)) if f == c.src_fp => Ok(by_specificity(found)),
+        Ok(Ok(f)) if paren_lookahead(c, &f) => {
+            let mut found = found;
+            found.push(KF_PAREN_RECORD_LOOKAHEAD);
+            Ok(by_specificity(found))
+        }
         Ok(Ok(f)) => Err(format!(" [with the traces of {names:?} undone the output parses, but to another tree: {}]", fp::fp_diff(c.src_fp, &f))),
         Ok(Err((e, _))) => Err(format!(" [with the traces of {names:?} undone the output still has {e}]")),
         Err(p) => Err(format!(" [with the traces of {names:?} undone the parser panics: {}]", p.describe())),
     }
 }
 
+/// The parser decides "tuple or parenthesised expression" by looking for a comma within the next
+/// 20 tokens, counting parentheses but not braces: `({a = 1, ..})` or `(match x {0 => 1, _ => 2})`
+/// reads as a one-element tuple when such a comma is within reach and as a parenthesised
+/// expression when it is not.  The printer drops trailing commas of lists, which can move the
+/// comma into reach.  Predicate: the input has a parenthesised expression that holds a brace,
+/// and the two trees are equal once one-element tuples and parentheses are both read as their
+/// content.
+fn paren_lookahead(c: &CaseView, out_fp: &str) -> bool {
+    let toks = parser::tokenize(c.src);
+    let mut depth = 0usize;
+    let mut brace_in_paren = false;
+    for t in toks.iter().filter(|t| !t.is_trivia()) {
+        match t.kind {
+            TokenKind::ParenBegin => depth += 1,
+            TokenKind::ParenEnd => depth = depth.saturating_sub(1),
+            TokenKind::BlockBegin if depth > 0 => brace_in_paren = true,
+            _ => {}
+        }
+    }
+    brace_in_paren && (c.feats.has(SyntaxKind::ParenExpr) || c.feats.has(SyntaxKind::TupleExpr)) && fp::without_single_tuples(out_fp) == fp::without_single_tuples(c.src_fp)
+}
+
 /// Which known finding drops the comment at this site?
-fn comment_drop_site(s: &fp::CommentSite) -> Option<Finding> {
+fn comment_drop_site(s: &fp::CommentSite, feats: &Features) -> Option<Finding> {
+    if feats.unprinted_type_parens.contains(&s.owner_token) {
+        return Some(KF_TYPE_PAREN_COMMENT);
+    }
     if !s.leading && s.owner == TokenKind::BlockEnd && s.parent == Some(SyntaxKind::BlockExpr) {
         return Some(KF_BLOCK_END_COMMENT);
     }
@@ -374,7 +519,7 @@ fn explain_comment_changes(c: &CaseView) -> Option<Vec<Finding>> {
             }
             continue;
         }
-        match site.and_then(comment_drop_site) {
+        match site.and_then(|s| comment_drop_site(s, c.feats)) {
             Some(k) => push_unique(&mut ids, k),
             None => rest.push(text),
         }
@@ -383,6 +528,22 @@ fn explain_comment_changes(c: &CaseView) -> Option<Vec<Finding>> {
     expected.extend(dup);
     expected.extend(rest);
     if !ids.is_empty() && expected == co { Some(ids) } else { None }
+}
+
+/// Is the difference between the first and the second pass the duplicated-header-comment defect
+/// (and nothing else)?  The first pass is taken as the input of the second.
+fn header_dup_again(c: &CaseView) -> Option<Vec<Finding>> {
+    let (out, again) = (c.out?, c.again?);
+    let feats = fp::features(out)?;
+    let out_fp = fp::parse_fp(out).ok()?;
+    if fp::parse_fp(again).ok()? != out_fp {
+        return None;
+    }
+    let v2 = CaseView { src: out, src_fp: &out_fp, out: Some(again), again: None, feats: &feats };
+    match explain_comment_changes(&v2) {
+        Some(ids) if ids == vec![KF_HEADER_DUP] => Some(ids),
+        _ => None,
+    }
 }
 
 /// (signature, known findings that fully explain this violation — empty if it is not explained,
@@ -395,14 +556,21 @@ fn classify(c: &CaseView, v: &Violation, structural: &[Finding]) -> (String, Vec
         "output-does-not-parse" | "ast-changed" => match explain_structure(c) {
             Ok(f) => Some(f),
             Err(n) => {
-                note = n;
-                None
+                if v.kind == "ast-changed" && n.contains("tokens in order") && c.out.and_then(|o| fp::parse_fp(o).ok()).map(|f| paren_lookahead(c, &f)).unwrap_or(false) {
+                    Some(vec![KF_PAREN_RECORD_LOOKAHEAD])
+                } else {
+                    note = n;
+                    None
+                }
             }
         },
         "comment-lost" | "comment-added" | "comment-reordered" => explain_comment_changes(c),
         // the output is (by an explained defect) another program than the input: its second
         // formatting is not the subject any more
         "not-idempotent" if !structural.is_empty() => Some(structural.to_vec()),
+        // every pass prints the comments in front of the first token once more: the second pass
+        // differs from the first exactly as that defect predicts
+        "not-idempotent" => header_dup_again(c),
         _ => None,
     };
     match found {
@@ -491,7 +659,7 @@ fn finish(i: Input, cx: &Cx) -> CaseResult {
     let hash = hash64(&hb);
 
     let ob = observe(i.src, src_fp, i.width, i.indent);
-    let view = CaseView { src: i.src, src_fp, out: ob.out.as_deref(), feats: &feats };
+    let view = CaseView { src: i.src, src_fp, out: ob.out.as_deref(), again: ob.again.as_deref(), feats: &feats };
     let mut excluded: Vec<&'static str> = vec![];
     let mut structural: Vec<Finding> = vec![];
     let mut failure: Option<(String, String)> = None;
@@ -664,7 +832,7 @@ impl Prop for C14 {
     }
     fn required_classes(&self, _tier: Tier) -> Vec<&'static str> {
         let mut v = vec!["has-comment", "needs-break", "src:corpus", "src:mutant", "src:synthetic"];
-        v.extend(["mut:eol-line-comment", "mut:own-line-comment", "mut:block-comment", "mut:add-blank-line", "mut:remove-blank-line", "mut:reindent", "mut:trailing-whitespace", "mut:join-semicolon", "mut:multi-space", "mut:crlf", "mut:split-line", "mut:split-line-comment", "mut:tight-block-comment"]);
+        v.extend(["mut:eol-line-comment", "mut:own-line-comment", "mut:block-comment", "mut:add-blank-line", "mut:remove-blank-line", "mut:reindent", "mut:trailing-whitespace", "mut:join-semicolon", "mut:multi-space", "mut:crlf", "mut:split-line", "mut:split-line-comment", "mut:tight-block-comment", "mut:file-start-comment"]);
         v
     }
 }
